@@ -98,7 +98,20 @@ def get_trans(kind, cid, seqs, ok, inc, trim):
     return [str(d[n]) for n in names]
 
 
+def expand(c):
+    """long periodic sequences travel compressed as unit + n (see c12.py)"""
+    if "unit" in c and "s" not in c:
+        c = dict(c)
+        u, n = c["unit"], c["n"]
+        c["s"] = (u * (n // len(u) + 1))[:n]
+    if "useqs" in c and "seqs" not in c:
+        c = dict(c)
+        c["seqs"] = [(u * (n // len(u) + 1))[:n] + tail for u, n, tail in c["useqs"]]
+    return c
+
+
 def run_case(c):
+    c = expand(c)
     k = c["k"]
     m = mods()
     if k == "getitem":
